@@ -201,6 +201,7 @@ class QueryParser(BaseQueryParser):
                            'Doc': [('author', 'D. N. Adams')],
                            'Prop': [('name', 'Contrast'), ('value':[20]), ('unit':'%')]}
         """
+        self.q_dict = {}
         doc_pattern = re.compile("(doc|document)[(].*?[)]")
         doc = re.search(doc_pattern, q_str)
         if doc:
